@@ -197,7 +197,7 @@ def fn_variants(kind, n):
         add("toarray", grid(flag=F)); add("debug", grid(flag=F))
         add("getnext", grid(cur=CUR, flag=F))
     elif kind == "list":
-        add("setsize", grid(idx=[0, 2, 100]))
+        add("setsize", grid(idx=[0, 1, 2, 3, 100, -1, 2147483647]))
         for fn in ("addfirst", "addlast"):
             add(fn, grid(val=[VAL, "NULL", "-"]))
         add("addat", grid(idx=ix, val=[VAL])); add("addat", ["idx=0 val=NULL"])
@@ -212,7 +212,7 @@ def fn_variants(kind, n):
         add("toarray", grid(flag=F)); add("debug", grid(flag=F))
         add("getnext", grid(cur=CUR, flag=F))
     elif kind in ("queue", "stack"):
-        add("setsize", grid(idx=[0, 2, 100]))
+        add("setsize", grid(idx=[0, 1, 2, 3, 100, -1, 2147483647]))
         add("push", grid(val=[VAL, "NULL", "-"]))
         add("pushstr", grid(key=[hx("str"), "NULL"]))
         add("pushint", grid(idx=[7]))
@@ -265,7 +265,8 @@ def fn_variants(kind, n):
         add("getnext", grid(cur=CUR, flag=F))
         add("find_min", grid(flag=F)); add("find_max", grid(flag=F))
         add("find_nearest", grid(key=KT, idx=[0], flag=F)); add("find_nearest", ["key=%s idx=-1 flag=0" % K0])
-        for fn in ("set_compare", "size", "clear", "lockunlock", "free"):
+        add("set_compare", grid(idx=[0, 1, 2]))       # NULL comparator, a reversing one, the default one
+        for fn in ("size", "clear", "lockunlock", "free"):
             add(fn)
         add("debug", grid(flag=F)); add("check", grid(flag=F)); add("byte_cmp", grid(key=[hx("ab"), hx("abc"), hx("a"), hx("b")]))
     elif kind == "log":
